@@ -11,12 +11,18 @@ import (
 	"time"
 
 	"github.com/gdamore/tcell/v2"
+	tenc "github.com/gdamore/tcell/v2/encoding"
+	"golang.org/x/text/encoding"
+	"golang.org/x/text/encoding/charmap"
+	"golang.org/x/text/encoding/japanese"
+	"golang.org/x/text/encoding/simplifiedchinese"
 	"pgregory.net/rapid"
 	"verif.local/hx"
 	"verif.local/simrt"
 )
 
 func TestMain(m *testing.M) {
+	tenc.Register()
 	code := m.Run()
 	hx.St.Flush()
 	os.Exit(code)
@@ -64,6 +70,7 @@ type plan struct {
 	App       []appStep
 	ReadErr   int  // >=0: tty read fails after that many bytes
 	ZeroReads int  // number of reads that return 0,nil
+	DrainOnce bool // C06: the tty's Drain wakes the reader once instead of failing all reads
 	WriteFail bool // C06: tty writes fail from the moment the shutdown call starts
 	Shutdown  shutdownPlan
 	// FiniHow (C05): how the final Fini finds the screen: 0 running,
@@ -84,6 +91,9 @@ type shutdownPlan struct {
 	Settle     bool   // let the pipeline absorb the extra input first
 }
 
+// tokCharset is the character set of the plan being drawn ("" = UTF-8).
+var tokCharset string
+
 func drawTok(t *rapid.T, id int, w, h int) tok {
 	switch rapid.IntRange(0, 11).Draw(t, "tokkind") {
 	case 11:
@@ -101,8 +111,28 @@ func drawTok(t *rapid.T, id int, w, h int) tok {
 		return tok{"rune", []byte(string(r)), fmt.Sprintf("key:Rune:%c:0", r)}
 	case 4:
 		rs := []rune{'é', 'ж', '中', '😀', '€'}
+		var enc encoding.Encoding
+		switch tokCharset {
+		case "ISO8859-1":
+			rs, enc = []rune{'é', 'ü', 'ß', '£', '¿'}, charmap.ISO8859_1
+		case "KOI8-R":
+			rs, enc = []rune{'ж', 'я', 'б', 'Ю', '═'}, charmap.KOI8R
+		case "GBK":
+			rs, enc = []rune{'中', '你', '好', 'ж', '鷗'}, simplifiedchinese.GBK
+		case "Shift_JIS":
+			rs, enc = []rune{'日', '本', 'ア', '語', 'ｱ'}, japanese.ShiftJIS
+		}
 		r := rs[id%len(rs)]
-		return tok{"rune", []byte(string(r)), fmt.Sprintf("key:Rune:%c:0", r)}
+		b := []byte(string(r))
+		if enc != nil {
+			// the terminal sends the character in the locale's character set
+			eb, err := enc.NewEncoder().Bytes(b)
+			if err != nil {
+				panic(err)
+			}
+			b = eb
+		}
+		return tok{"rune", b, fmt.Sprintf("key:Rune:%c:0", r)}
 	case 5:
 		keys := []struct {
 			b string
@@ -156,6 +186,11 @@ func drawPlan(t *rapid.T, mode string) *plan {
 	p := &plan{ReadErr: -1}
 	p.Cfg = hx.DrawConfig(t, []string{"xterm-256color", "xterm"}, 40, 15)
 	p.Cfg.TrueColor = false
+	// the locale's character set: typed text arrives in it
+	tokCharset = rapid.SampledFrom([]string{"", "", "", "ISO8859-1", "KOI8-R", "GBK", "Shift_JIS"}).Draw(t, "charset")
+	if tokCharset != "" {
+		p.Cfg.Locale = "en_US." + tokCharset
+	}
 	id := 0
 	nterm := rapid.IntRange(0, 14).Draw(t, "nterm")
 	for i := 0; i < nterm; i++ {
@@ -224,6 +259,7 @@ func drawPlan(t *rapid.T, mode string) *plan {
 		}
 		p.Cfg.Polling = rapid.IntRange(0, 5).Draw(t, "polling") == 0
 		p.WriteFail = rapid.IntRange(0, 7).Draw(t, "writefail") == 0
+		p.DrainOnce = !p.Cfg.Polling && rapid.IntRange(0, 5).Draw(t, "drainonce") == 0
 	} else {
 		p.Shutdown.Kind = "fini"
 		p.FiniHow = rapid.SampledFrom([]int{0, 0, 0, 1, 1, 2}).Draw(t, "finihow")
@@ -805,6 +841,7 @@ func run(t *rapid.T, mode string) {
 		w.Tty.ErrAfter = p.ReadErr
 	}
 	w.Tty.ZeroReads = p.ZeroReads
+	w.Tty.DrainOnce = p.DrainOnce
 	w.S.Note(hx.Fingerprint(*p))
 	s := w.S
 	// a polling tty never lets the system go quiet: bound each phase by
